@@ -52,6 +52,66 @@ def build_scratch():
     return tmp, rc, (out + err)[-1500:]
 
 
+KERNEL_SOURCES = ['pygyro/splines/spline_eval_funcs.py', 'pygyro/splines/cubic_uniform_spline_eval_funcs.py',
+                  'pygyro/initialisation/initialiser_funcs.py', 'pygyro/poisson/poisson_tools.py',
+                  'pygyro/advection/accelerated_advection_steps.py']
+
+
+def _imports_of(root, rel):
+    """kernel sources a kernel source imports from (pyccel compiles them into the module: a static copy)"""
+    import ast
+    out = set()
+    tree = ast.parse(open(os.path.join(root, rel)).read())
+    for node in ast.walk(tree):
+        if isinstance(node, ast.ImportFrom) and node.module:
+            last = node.module.split('.')[-1] + '.py'
+            for k in KERNEL_SOURCES:
+                if k.endswith('/' + last) and k != rel:
+                    out.add(k)
+    return out
+
+
+def incremental_stage(chk, tmp):
+    """the documented build, repeated after a kernel source was edited, must leave no compiled module older than
+    a source it was compiled from (own file or a kernel file it imports): otherwise the compiled kernels are those
+    of the previous sources.  Edits are mtime bumps; `make -n` tells which compile commands the second make runs."""
+    import re
+    import time
+    env = dict(os.environ)
+    env.pop('PYTHONPATH', None)
+    mk = ['make', 'ACC=pycc', 'LANGUAGE=fortran', 'PYTHON=/venv/bin/python', 'TOOL=/venv/bin/pyccel']
+    rc, out, err = core.sh(mk + ['-n'], 120, cwd=tmp, env=env)
+    chk.count(('incremental', 'nothing-edited'), stratum='build:incremental', sample={'edited': None, 'make -n': (out + err)[-200:]})
+    deps = {k: _imports_of(tmp, k) for k in KERNEL_SOURCES if os.path.exists(os.path.join(tmp, k))}
+    for src in sorted(deps):
+        need = sorted([src] + [k for k, d in deps.items() if src in d])
+        path = os.path.join(tmp, src)
+        st = os.stat(path)
+        os.utime(path, (time.time() + 5, time.time() + 5))
+        try:
+            rc, out, err = core.sh(mk + ['-n'], 120, cwd=tmp, env=env)
+        finally:
+            os.utime(path, (st.st_atime, st.st_mtime))
+        rebuilt = set()
+        cwd = tmp
+        for line in (out + err).splitlines():
+            m = re.search(r"Entering directory '([^']+)'", line)
+            if m:
+                cwd = m.group(1)
+            m = re.search(r'pyccel\s+(\S+\.py)', line)
+            if m:
+                rebuilt.add(os.path.relpath(os.path.normpath(os.path.join(cwd, m.group(1))), tmp))
+        chk.count(('incremental', src), stratum='build:incremental', sample={'edited': src, 'recompiled': sorted(rebuilt), 'required': need})
+        stale = [k for k in need if k not in rebuilt]
+        if rc != 0:
+            chk.violation('build:incremental-make-fails', 'make -n after editing %s fails: %s' % (src, (out + err)[-300:]), {'kind': 'impl', 'edited': src})
+        elif stale:
+            chk.violation('build:stale-after-edit:%s' % os.path.basename(src),
+                          'history: make ACC=pycc; edit %s; make ACC=pycc -- the second make does not recompile %r, whose compiled code contains a copy of the edited kernels '
+                          '(recompiled: %r): the compiled module keeps computing with the previous source' % (src, stale, sorted(rebuilt)),
+                          {'kind': 'impl', 'history': ['make ACC=pycc LANGUAGE=fortran', 'edit ' + src, 'make ACC=pycc LANGUAGE=fortran'], 'stale': stale, 'recompiled': sorted(rebuilt)})
+
+
 def run_runner(root, seed, n, outp):
     """two invocations: the implicit poloidal iteration (a compiled loop that cannot be interrupted if it does not
     converge) runs separately under a short limit; a timeout is an outcome of the compiled/interpreted program"""
@@ -349,6 +409,7 @@ def run():
             chk.violation('build:documented-build-fails', 'make ACC=pycc LANGUAGE=fortran fails on the current tree: %s' % log[-400:],
                           {'kind': 'impl', 'what': 'documented build', 'log': log})
         else:
+            incremental_stage(chk, tmp)
             seeds = [rng.randrange(10 ** 6) for _ in range(1 if quick else 4)]
             for sd in seeds:
                 comp, e1 = run_runner(tmp, sd, n, os.path.join(tmp, 'comp.pkl'))
